@@ -15,6 +15,7 @@ from matrix import (P, UNIT, i_, none, ok, panic, rng, short, some, vbool, vint,
 from matrix_extra import BEntry
 
 INTS = ["u8", "u16", "u32", "u64", "u128", "i8", "i16", "i32"]
+ALL_INTS = INTS + ["i64", "i128"]
 SCALARS = INTS + ["felt252", "bool"]
 
 PRELUDE = """#[derive(Copy, Drop, PartialEq)]
